@@ -517,6 +517,7 @@ PLAN["C08"] = {
     "tests": [
         {"name": "TestDeterminism", "quick": (1600, 12), "thorough": (96000, 16)},
         {"name": "TestDigests", "same_seed": True, "quick": (150, 4), "thorough": (4000, 8)},
+        {"name": "TestLegacyMigrationDeterminism", "quick": (4000, 4), "thorough": (400000, 8)},
     ],
     "post": c08_post,
     "budget": {"quick": 600, "thorough": 5400},
